@@ -296,8 +296,7 @@ impl Prop for C13 {
                     }
                     return v;
                 }
-                let run = run_case(ctx, l);
-                judge(l, &run)
+                super::common::exec_line(ctx, l)
             }
             Case::RoundTrip { text, n, base, out } => {
                 let l = LineCase::new(text.clone(), Expect::Unspecified, "roundtrip");
